@@ -1,4 +1,4 @@
-// bounded: pkg=manifest run=TestVerifBoundedReloadEqualsMemory bound=every sequence of 1..3 edits from a 14-element alphabet (table add/delete, WAL checkpoint, value-log head / update valid / update invalid / delete, raft pointer x2, region update x2 / delete, on two value-log files and two regions); rewrite after every edit, after the last edit only, or never
+// bounded: pkg=manifest run=TestVerifBoundedReloadEqualsMemory bound=every sequence of 1..3 edits from a 14-element alphabet (table add/delete, WAL checkpoint, value-log head / update valid / update invalid / delete, raft pointer x2, region update x2 / delete, on two value-log files and two regions); rewrite after every edit, after the last edit only, after the first edit only (later edits are appended to the rewritten file), or never
 package manifest
 
 // Bounded stand-in for the first sentence of C15: "For any sequence of metadata edits ...
@@ -119,7 +119,10 @@ func TestVerifBoundedReloadEqualsMemory(t *testing.T) {
 	var run func(seq []int)
 	run = func(seq []int) {
 		if len(seq) > 0 {
-			for mode := 0; mode < 3; mode++ { // 0 never rewrite, 1 rewrite after the last edit, 2 rewrite after every edit
+			for mode := 0; mode < 4; mode++ { // 0 never rewrite, 1 rewrite after the last edit, 2 rewrite after every edit, 3 rewrite after the first edit only
+				if mode == 3 && len(seq) < 2 {
+					continue
+				}
 				n++
 				dir := filepath.Join(base, fmt.Sprintf("m%d", n))
 				if err := os.MkdirAll(dir, 0o755); err != nil {
@@ -133,7 +136,7 @@ func TestVerifBoundedReloadEqualsMemory(t *testing.T) {
 					if err := m.LogEdit(clone(alphabet[ai])); err != nil {
 						t.Fatalf("sequence %v: LogEdit %d: %v", seq, ai, err)
 					}
-					if mode == 2 || (mode == 1 && k == len(seq)-1) {
+					if mode == 2 || (mode == 1 && k == len(seq)-1) || (mode == 3 && k == 0) {
 						if err := m.Rewrite(); err != nil {
 							t.Fatalf("sequence %v: Rewrite: %v", seq, err)
 						}
@@ -150,7 +153,7 @@ func TestVerifBoundedReloadEqualsMemory(t *testing.T) {
 				disk := verifBoundedNormVersion(r.Current())
 				_ = r.Close()
 				if !reflect.DeepEqual(mem, disk) {
-					t.Fatalf("edit sequence %v (indices into the alphabet), rewrite mode %d (0 never, 1 after the last edit, 2 after every edit): the state reloaded from disk differs from the in-memory state\n memory: %+v\n reload: %+v", seq, mode, mem, disk)
+					t.Fatalf("edit sequence %v (indices into the alphabet), rewrite mode %d (0 never, 1 after the last edit, 2 after every edit, 3 after the first edit only): the state reloaded from disk differs from the in-memory state\n memory: %+v\n reload: %+v", seq, mode, mem, disk)
 				}
 				_ = os.RemoveAll(dir)
 				cases++
